@@ -6,6 +6,9 @@
               requests pending                                                                     (C16, C14)
   args      : boundary and ill-typed arguments of every API entry point in every state that otherwise allows the
               call; every refused call is paired with a twin history WITHOUT the call (meta.ref)   (C20)
+  refused   : a connection attempt that ends without a session, a second connect() (valid / invalid, clean / persistent)
+              on the same protocol, loss / acceptance / refusal, then a persistent resumption      (C11, C12, C04, C13)
+  react     : API calls made from inside Deferred callbacks and handlers (stage 3)
 
 usage: enum_driver.py <outdir> <family> <tier> <seed>  -> <outdir>/{pub,sub,both}.ndjson + .idx.json
 """
@@ -108,6 +111,65 @@ def fam_handshake(out, tier, rnd):
                         drain(w)
                         out.done(w)
 
+
+
+# ------------------------------------------------------------------------------------------------ second attempt
+def fam_refused(out, tier, rnd):
+    """a connection attempt that ends without a session (refused CONNACK / timeout) with requests made while connecting,
+    followed by a second connect() on the same protocol - valid or refused for its arguments, clean or persistent - and
+    then by the loss, another refusal or an accepted CONNACK; finally a new protocol resumes persistently, which shows
+    whatever was left behind                                                                  (C11, C12, C04, C13)"""
+    codes = (1, 2, 3, 4, 5) if tier == "thorough" else (1, 5)
+    bad = [dict(keepalive=65536), dict(clientId="x" * 24, version=3), dict(willTopic="w"), dict(keepalive=None)]
+    if tier == "quick":
+        bad = bad[:2]
+    seconds = [None] + [("ok", c, None) for c in (True, False)] + [("bad", c, b) for c in (True, False) for b in bad]
+    for prof in ("pub", "both"):
+        for clean1 in (True, False):
+            for early in ([], [1], [2, 1, 0]):
+                for code in codes + ("timeout",):
+                    if tier == "quick" and code == "timeout" and early != [1]:
+                        continue
+                    for second in seconds:
+                        endings = ("lost",) if second is None or second[0] == "bad" else ("lost", "accepted", "refused")
+                        for ending in endings:
+                            w = out.world(prof)
+                            w.build(A); w.set(A, "onDisconnection", 1); w.set(A, "window", 2)
+                            w.connect(A, keepalive=0, cleanStart=clean1, version=4)
+                            for q in early:
+                                w.publish(A, "t", "early%d" % q, q)
+                            if code == "timeout":
+                                # the connect timeout is the last-armed of the timers due (retry timers of early publishes come first)
+                                while w.t[A].phase == "open" and type(w.p[A].state).__name__ == "ConnectingState" and w.due() and w.in_range(w.due()[0]):
+                                    w.fire(w.due()[0])
+                            else:
+                                w.recv(A, W.connack(code, 0))
+                            if second is not None and w.t[A].phase == "open":
+                                kw = dict(keepalive=0, version=4)
+                                if second[0] == "bad":
+                                    kw.update(second[2])
+                                w.connect(A, cleanStart=second[1], **kw)
+                                if second[0] == "ok":
+                                    w.publish(A, "t", "second", 1)
+                            if w.t[A].phase not in ("open", "closing"):      # A2: nothing arrives after abortConnection()
+                                pass
+                            elif ending == "accepted":
+                                w.recv(A, W.connack(0, 0 if (second and second[1]) else 1))
+                                w.publish(A, "t", "after", 1)
+                                if w.due() and w.in_range(w.due()[0]):
+                                    w.fire(w.due()[0])
+                            elif ending == "refused":
+                                w.recv(A, W.connack(4, 0))
+                            if w.t[A].phase != "lost":
+                                w.lost(A, rnd.choice(["done", "lost"]))
+                            drain(w, 3)
+                            # what is left behind: resumed by a persistent connection of a new protocol
+                            w.build(A); w.set(A, "onDisconnection", 1)
+                            w.connect(A, keepalive=0, cleanStart=False, version=4); w.recv(A, W.connack(0, 1))
+                            w.publish(A, "t", "fresh", 1)
+                            w.lost(A, "done")
+                            drain(w, 3)
+                            out.done(w)
 
 # ------------------------------------------------------------------------------------------------ inject
 SITUATIONS = ["idle", "connecting", "connected", "pending-q1", "pending-q2", "pending-rel", "pending-sub", "pending-unsub", "held-inbound", "keepalive"]
@@ -482,6 +544,25 @@ def fam_react(out, tier, rnd):
                 if w.due():
                     w.fire(w.due()[0])
                 finish(w)
+            # ... onMqttConnectionMade of a connection that inherits a persistent session with unfinished requests of every kind
+            for ka in (0, 3):
+                for sp in (0, 1):
+                    w = start(prof, window=3)
+                    w.connect(A, keepalive=0, cleanStart=False); w.recv(A, W.connack(0, 0))
+                    if prof != "sub":
+                        w.publish(A, "t", "q2", 2); mid2 = next((e["mid"] for e in w.lines[-1]["fx"] if e["k"] == "ret"), 1)
+                        w.publish(A, "t", "q1", 1); w.publish(A, "t", "q2b", 2); w.publish(A, "t", "held", 1)
+                        w.recv(A, W.ack("PUBREC", mid2))
+                    if prof != "pub":
+                        w.subscribe(A, [("s/1", 1)]); w.unsubscribe(A, ["s/0"])
+                    w.lost(A, "lost")
+                    w.build(A); w.set(A, "onDisconnection", 1); w.set(A, "onPublish", 1); w.set(A, "onMqttConnectionMade", 1); w.set(A, "window", 3)
+                    w.on_cb(A, "onMqttConnectionMade", actions(w)[act])
+                    w.connect(A, keepalive=ka, cleanStart=False); w.recv(A, W.connack(0, sp))
+                    actions(w)["publish1" if prof != "sub" else "subscribe"]()
+                    if w.due() and w.in_range(w.due()[0]):
+                        w.fire(w.due()[0])
+                    finish(w)
             if prof != "pub":
                 for q in (0, 1, 2):
                     w = start(prof)
@@ -503,7 +584,7 @@ def main():
     outdir, fam, tier, seed = sys.argv[1], sys.argv[2], sys.argv[3], int(sys.argv[4])
     rnd = random.Random(seed)
     out = Out(outdir)
-    {"handshake": fam_handshake, "inject": fam_inject, "args": fam_args, "react": fam_react}[fam](out, tier, rnd)
+    {"handshake": fam_handshake, "inject": fam_inject, "args": fam_args, "react": fam_react, "refused": fam_refused}[fam](out, tier, rnd)
     out.close()
 
 
